@@ -114,6 +114,12 @@ H_POOL = [
     ('principal, action, resource is Doc', 'resource.owner.profile.team.rank > 0 && principal in resource.owner.profile.team'),
     ('principal, action, resource is Doc', 'resource.viewers.contains(principal.profile.team) || principal in resource.viewers'),
     ('principal, action, resource is Doc', 'principal in resource.folder.owner.profile.team || resource.folder.owner.profile.team == principal.profile.team'),
+    # the same left-hand entity tested with `in` against two access paths, one a strict prefix of the other: both live in
+    # the ANCESTORS trie of that entity and the shorter path's node is merged from an ancestor and a non-ancestor request
+    ('principal, action, resource is Doc', 'principal in resource.owner.profile.team || (resource.owner.profile.team has lead && principal in resource.owner.profile.team.lead.profile.team)'),
+    ('principal, action, resource is Doc', '(resource.owner.profile.team has lead && principal in resource.owner.profile.team.lead.profile.team) || principal in resource.owner.profile.team'),
+    ('principal, action, resource', 'principal in principal.profile.team || (principal.profile.team has lead && principal in principal.profile.team.lead.profile.team)'),
+    ('principal, action in [Action::"view", Action::"edit"], resource', '(context.info.g has lead && principal in context.info.g.lead.profile.team) || principal in context.info.g'),
     # bare `has` (no later access re-adds the path): added after mutant M2 (HasAttr path dropped) escaped
     ('principal, action, resource', 'principal has manager'),
     ('principal, action, resource is Doc', '!(resource.owner has friend)'),
@@ -132,6 +138,8 @@ H_PAIRS = [
     (('principal, action in [Action::"view", Action::"edit"], resource', 'principal in context.info.g'),
      ('principal, action in [Action::"view", Action::"edit"], resource', 'context.info.g.rank > 0')),
 ]
+H_PAIRS.append((('principal, action, resource is Doc', 'principal in resource.owner.profile.team'),
+                ('principal, action, resource is Doc', 'resource.owner.profile.team has lead && principal in resource.owner.profile.team.lead.profile.team')))
 H_TEMPLATES = [
     ('principal in ?principal, action, resource == ?resource', 'true', {"principal": ("Group", "g"), "resource": ("Doc", "d")}),
     ('principal == ?principal, action, resource in ?resource', 'resource.owner == principal', {"principal": ("User", "u"), "resource": ("Folder", "f")}),
